@@ -33,6 +33,9 @@ type ChanSpec struct {
 	Banner    []byte
 	Socks     bool // a socks:// channel (the server's built-in SOCKS5 proxy): no fixed target
 	Dead      bool // the channel's target does not listen (any more): every connection to it is refused by the target
+	// Custom (optional): this channel object is handed to the server as it is (its Name() must be Name); no recording
+	// target is created for it (Targets[Name] stays nil, use Dial, not Open). See c02_slowtarget.go.
+	Custom server.Channel
 }
 
 // Options selects what Start builds.
@@ -216,6 +219,10 @@ func Start(o Options) (*Pair, error) {
 	// targets and channels
 	var channels server.Channels
 	for _, cs := range o.Channels {
+		if cs.Custom != nil {
+			channels = append(channels, cs.Custom)
+			continue
+		}
 		if cs.Socks {
 			channels = append(channels, &server.SocksChannel{AbstractChannel: server.AbstractChannel{
 				ProtoName: addr.ProtoName{Name: cs.Name}, Address: addr.MustParseAddress("socks://")}})
